@@ -505,7 +505,7 @@ theorem twin_step (cfg cfg' : Config) (hflt : cfg'.filter = cfg.filter) (hfsb : 
     (hT : Twin s₁ s₂) (hI₁ : Inv s₁ P) (hI₂ : Inv s₂ P) (hJ₁ : Inv2 U F₁ s₁.db) (hJ₂ : Inv2 U F₂ s₂.db)
     (hi₁ : InitNumOK s₁.db) (hi₂ : InitNumOK s₂.db) (hbU : U b.id = some b)
     (hL₁ : LibDeclOK s₁.db b) (hL₂ : LibDeclOK s₂.db b)
-    (hincl : s₁.includeInit = false ∨ s₁.lastSent.isSome = true) :
+    (hni₁ : s₁.includeInit = false ∨ s₁.lastSent.isSome = true ∨ b.id ≠ s₁.db.libRef.id) :
     (processBlock cfg' s₂ b none).2.1 = (processBlock cfg s₁ b none).2.1 ∧
     Twin (processBlock cfg s₁ b none).1 (processBlock cfg' s₂ b none).1 := by
   have hb := hU.wf b.id b hbU
@@ -516,10 +516,6 @@ theorem twin_step (cfg cfg' : Config) (hflt : cfg'.filter = cfg.filter) (hfsb : 
   have hm : ∀ st, cfg'.matches st = cfg.matches st := by intro st; unfold Config.matches; rw [hflt]
   have hnew' : cfg'.matches .new = true := by rw [hm]; exact hnew
   have hundo' : cfg'.matches .undo = true := by rw [hm]; exact hundo
-  have hni₁ : s₁.includeInit = false ∨ s₁.lastSent.isSome = true ∨ b.id ≠ s₁.db.libRef.id := by
-    rcases hincl with h | h
-    · exact Or.inl h
-    · exact Or.inr (Or.inl h)
   have hni₂ : s₂.includeInit = false ∨ s₂.lastSent.isSome = true ∨ b.id ≠ s₂.db.libRef.id := by
     rw [hT.incl, hT.last, hT.db.lib]; exact hni₁
   have htrig : triggers cfg' s₂ b = triggers cfg s₁ b := by unfold triggers; rw [hall, hT.last]
@@ -615,5 +611,28 @@ theorem twin_step (cfg cfg' : Config) (hflt : cfg'.filter = cfg.filter) (hfsb : 
           eb.blk hls₁ (hlastOf s₁.db _ hf₁ hsb₁) (hlastOf s₂.db _ hf₂ hsb₂)
           (by rw [hebref, heblib]; exact hok₁) (by rw [hebref, heblib]; exact hok₂)
         exact ⟨hadv.evs, hadv.st⟩
+
+/-- twin states that have not delivered anything yet are the same state -/
+theorem Twin.eq_of_not_started {s₁ s₂ : FState} (hT : Twin s₁ s₂) (h : s₁.lastSent = none) : s₂ = s₁ := by
+  have he := hT.fresh h
+  rcases s₁ with ⟨⟨e₁, l₁, i₁⟩, ls₁, sn₁, in₁, c₁⟩
+  rcases s₂ with ⟨⟨e₂, l₂, i₂⟩, ls₂, sn₂, in₂, c₂⟩
+  have h1 := hT.db.lib
+  have h2 := hT.db.init
+  have h3 := hT.last
+  have h4 := hT.seen
+  have h5 := hT.incl
+  have h6 := hT.cache
+  simp only at he h1 h2 h3 h4 h5 h6
+  subst he; subst h1; subst h2; subst h3; subst h4; subst h5; subst h6
+  rfl
+
+/-- the delivery of the inclusive starting block does not involve the retention setting -/
+theorem initial_ignores_kept (cfg : Config) (k : Nat) (s : FState) (b : Blk) (h : plan cfg s b = .initial s) :
+    processBlock { cfg with kept := k } s b none = processBlock cfg s b none := by
+  have h' : plan { cfg with kept := k } s b = .initial s := h
+  unfold processBlock
+  rw [h, h']
+  rfl
 
 end BstreamVerif.Forkable
